@@ -71,6 +71,38 @@ def _param_of(body, op, depth=0):
     return None
 
 
+_FINITE_IT = re.compile(r"^(std::slice::Iter<'_, [^<>]*>|std::slice::IterMut<'_, [^<>]*>|std::array::IntoIter<[^<>]*>|std::vec::IntoIter<[^<>]*>|"
+                        r"std::option::IntoIter<[^<>]*>|std::iter::Once<[^<>]*>|&(mut )?\[[^\]]*\]|&(mut )?std::vec::Vec<[^<>]*>|\[[^\]]*; \d+\])$")
+
+
+def _finite_iter_type(t):
+    """the iterator type yields finitely many items whatever its value: slice / array / vec / option iterators and the
+    adaptors that cannot lengthen them (chain of two finite ones, copied, cloned, rev, enumerate, take, skip, zip)"""
+    t = t.strip()
+    if _FINITE_IT.match(t):
+        return True
+    m = re.match(r"^std::iter::(Copied|Cloned|Rev|Enumerate|Skip|Take|Peekable)<(.*)>$", t)
+    if m:
+        return _finite_iter_type(m.group(2))
+    m = re.match(r"^std::iter::(Chain|Zip)<(.*)>$", t)
+    if m:
+        inner, depth = m.group(2), 0
+        for i, ch in enumerate(inner):
+            depth += ch == "<"
+            depth -= ch == ">"
+            if ch == "," and depth == 0:
+                a, b = inner[:i], inner[i + 1:]
+                if m.group(1) == "Zip":
+                    return _finite_iter_type(a) or _finite_iter_type(b)
+                return _finite_iter_type(a) and _finite_iter_type(b)
+    return False
+
+
+def _zip_with_finite(full):
+    m = re.match(r"^<std::slice::IterMut<'_, u8> as std::iter::Iterator>::zip::<(.*)>$", full)
+    return bool(m) and _finite_iter_type(m.group(1))
+
+
 def _only_taken(body, call):
     """the iterator made by this iter_mut() call flows only into `Iterator::take(it, n)` (possibly through moves)"""
     d = call.dest
@@ -94,6 +126,8 @@ def _only_taken(body, call):
                 a0 = t["args"][0]
                 if re.search(r"Iterator>::take$|Iterator::take$", fn) and a0.get("k") in ("copy", "move") and a0["place"]["l"] in cur:
                     uses.append(("take", None))
+                elif a0.get("k") in ("copy", "move") and a0["place"]["l"] in cur and _zip_with_finite(fn):
+                    uses.append(("take", None))      # `s.iter_mut().zip(finite)`: at most as many elements as `finite` yields
                 else:
                     uses.append(("other", None))
         if any(u[0] == "other" for u in uses):
